@@ -1,6 +1,7 @@
-\* thorough tier generation: transition cover of the complete graphs of the one-view stacks.
+\* thorough tier generation: transition cover of the complete graphs of LRU>Snappy and Snappy>LRU (capacity 1,
+\* default TTL 1..2, foreign undecodable backend writes; model-distinct operations only).
 CONSTANTS
-  StackIds = {1, 2, 4, 7, 8}
+  StackIds = {7, 8}
   Caps = {1}
   DTTLs = {1, 2}
   Keys = {"k1", "k2"}
@@ -10,7 +11,7 @@ CONSTANTS
   NViews = 2
   PokeTTLs = {1}
   MaxOps = 1000
-  Full = TRUE
+  Full = FALSE
   DetOnly = TRUE
 INIT Init
 NEXT Next
